@@ -79,11 +79,18 @@ Definition all_bytes (x : bytes) : Prop := Forall (fun b => b < 256) x.
 Inductive node_perm : node -> node -> Prop :=
 | NP_file d : node_perm (NFile d) (NFile d)
 | NP_link t : node_perm (NLink t) (NLink t)
-| NP_dir es es' : entries_perm es es' -> node_perm (NDir es) (NDir es')
-with entries_perm : list (str * node) -> list (str * node) -> Prop :=
-| EP : forall es es' mid,
-    Forall2 (fun a b => fst a = fst b /\ node_perm (snd a) (snd b)) es mid ->
-    Permutation mid es' -> entries_perm es es'.
+| NP_dir es mid es' :
+    Forall2 (fun a b => fst a = fst b /\ node_perm (snd a) (snd b)) es mid -> Permutation mid es' ->
+    node_perm (NDir es) (NDir es').
+
+(** Names are unique in every directory of the file system. *)
+Fixpoint fs_uniq (n : node) : Prop :=
+  match n with
+  | NDir es => NoDup (map fst es) /\
+               (fix all (l : list (str * node)) : Prop :=
+                  match l with [] => True | x :: r => fs_uniq (snd x) /\ all r end) es
+  | _ => True
+  end.
 
 (** Names are unique in every directory (what a real file system guarantees). *)
 Fixpoint uniq_names (t : stree) : Prop :=
